@@ -607,7 +607,7 @@ static void gen_case(Out& out, Rng& g, const std::string& dir) {
             IPoly small = g_rect(mx - 100, my - 100, 20, 10);
             polys.push_back(small);
         }
-        uint64_t limit = g.chance(15) ? g.below(5) : 5 + g.below(196);
+        uint64_t limit = g.chance(15) ? g.below(5) : (g.chance(20) ? 5 + g.below(3) : 5 + g.below(196));  // the boundary values 4, 5, 6 often
         if (g.coin() && ip.size() > 12) limit = std::max<uint64_t>(5, ip.size() - 1 - g.below(ip.size() / 2));  // just above the limit
         if (g.chance(30)) run_gds_path(out, g, limit < 5 ? limit : 5 + g.below(196), g.coin(), dir);
         else run_gds(out, g, polys, limit, g.coin(), dir, shape);
